@@ -28,7 +28,7 @@ struct TFile {
   std::string text;       // printed content
   bool has_override = false;
   std::string raw_override;  // replaces text when set (malformed content for C13/C20, decoys for C06)
-  int uid = -1, gid = -1;    // -1: leave as created
+  long long uid = -1, gid = -1;  // -1: leave as created (64 bits: ids above INT_MAX are legal)
   std::string where;         // "<layer>/<rel path>" label used in value tags
   mutable std::string link_target;  // set by materialise for F_LINK_REGULAR
 };
@@ -282,7 +282,9 @@ inline Tree gen_tree(Src &s, const Params &p, const TreeOpts &o) {
   } else if (sfx != "")
     add(sfx + ".d");
   // drop-in name universe (chosen so that byte order, numeric order and locale order differ)
-  std::vector<std::string> stems = {"10-a", "9-b", "100-c", "B", "a", "_x", "Z", "5"};
+  // "+p", "-m" (and the dot file ".-d" below) sort before "." / between "." and "..": positions a reader that
+  // skips "the first two directory entries" gets wrong
+  std::vector<std::string> stems = {"10-a", "9-b", "100-c", "B", "a", "_x", "Z", "5", "+p", "-m"};
   std::vector<std::string> universe;
   for (auto &st : stems) universe.push_back(st + sfx);
   int budget = o.max_consulted;
@@ -326,11 +328,11 @@ inline Tree gen_tree(Src &s, const Params &p, const TreeOpts &o) {
         std::string fn;
         size_t w = s.weighted({70, 8, 6, 6, 5, 5});
         switch (w) {
-          case 0: fn = s.pick(universe); break;
+          case 0: fn = s.chance(60) ? universe[s.below(5)] : s.pick(universe); break;  // (namesakes across layers must stay frequent)
           case 1: fn = s.pick(stems); break;                      // without the suffix
           case 2: fn = s.pick(stems) + sfx + ".bak"; break;        // merely contains the suffix
           case 3: fn = sfx.empty() ? std::string(".hidden") : sfx; break;  // the suffix alone
-          case 4: fn = ".h" + sfx; break;                          // dot file
+          case 4: fn = (s.chance(50) ? ".h" : ".-d") + sfx; break;  // dot file
           default: fn = name + sfx; break;                          // the main file's own name
         }
         if (fn.empty() || fn == "." || fn == "..") continue;
